@@ -71,11 +71,21 @@ def norm(f, out, args, notes):
     if not p:
         return out
     if p[0] == "trap":
-        if f is not None and f.cls == "ftrunc" and p[1] in ("ovf", "nanconv", "floatconv"):
+        pend = f is not None and f.cls.startswith(("pend", "mpend"))
+        if f is not None and (f.cls == "ftrunc" or (pend and ".trunc_" in f.instr)) and p[1] in ("ovf", "nanconv", "floatconv"):
             p[1] = "floatconv"
-        if f is not None and f.cls == "callind" and p[1] in ("tableaccess", "sigmismatch", "nullorsig"):
+        if f is not None and (f.cls == "callind" or (pend and "call_indirect" in f.instr)) and p[1] in ("tableaccess", "sigmismatch", "nullorsig"):
             p[1] = "indirect"
         return " ".join(p)
+    if p[0] == "ok" and f is not None and f.cls.startswith(("pend", "mpend")) and f.instr.endswith("@A") and len(p) >= 3:
+        # shape A returns (comparison result, K result): the NaN rule applies to K's result
+        ins = f.instr[:-2]
+        t, _, op = ins.partition(".")
+        if (t in ("f32", "f64") and op in instmod.NAN_NONDET) or ins in ("f32.demote_f64", "f64.promote_f32"):
+            r = int(p[2], 16)
+            if instmod.is_nan(t, r):
+                p[2] = "nan" if instmod.is_arith_nan(t, r) else "ILLEGAL-NAN(%s:not-arithmetic)" % p[2]
+                return " ".join(p)
     if p[0] == "ok" and f is not None and len(p) >= 2 and nan_nondet(f):
         rt = ftype_of(f.instr)
         r = int(p[1], 16)
@@ -180,8 +190,8 @@ def opclass(f, name, args):
         if d + n > instmod.PAGE or s + n > instmod.PAGE:
             return "oob"
         return "overlap" if n and abs(d - s) < n else "disjoint"
-    if c == "fconv":
-        return "general"
+    if c.startswith(("pend", "mpend")):
+        return "comparison-pending" if f.instr.endswith("@A") else "comparison-is-top-operand"
     return "general"
 
 
@@ -327,6 +337,8 @@ def grid(ctx, h, model, ev):
         if bad:
             eng = "all-engines" if len(bad) == 3 else "compiler" if set(bad) == {"emb", "compiler"} else "+".join(bad)
             kname = f.instr if (f is not None and f.cls == "mcombo" and f.instr == "memory.fill") else name.split("@")[0]
+            if f is not None and f.cls.startswith(("pend", "mpend")):
+                kname = "cmp;" + f.instr[:-2]          # root cause = the instruction kind K, whatever the comparison
             key = "%s:%s:%s" % (kname, oc, eng)
             backing = "V8" + (" and the Lean reference" if ln is not None else "") + (" and the spec oracle" if orc is not None else "")
             ctx.violation(key, "%s on [%s]: embedded runtime (%s) gives %r, %s give %r" % (
